@@ -15,6 +15,8 @@ pub const ADD: u8 = 0; // y = inner*2 + member
 pub const RM_MEMBER: u8 = 1; // y = inner*2 + member
 pub const RM_INNER: u8 = 2; // y = inner
 pub const RM_OUTER: u8 = 3;
+pub const RM_INNER_CTX: u8 = 4; // y = inner; remove context = the inner map's read_ctx()
+pub const RM_OUTER_CTX: u8 = 5; // remove context = the outer map's read_ctx()
 pub const KEYS: u8 = 2;
 
 fn inner_content(m: &Inner) -> BTreeMap<u8, BTreeSet<u8>> {
@@ -70,6 +72,8 @@ impl Sys for MapMap {
             RM_MEMBER => s.update(c.x, s.get(&c.x).derive_add_ctx(a), |m, ctx| m.update(inner, ctx, |set, _| set.rm(member, set.contains(&member).derive_rm_ctx()))),
             RM_INNER => s.update(c.x, s.get(&c.x).derive_add_ctx(a), |m, _ctx| m.rm(c.y, m.get(&c.y).derive_rm_ctx())),
             RM_OUTER => s.rm(c.x, s.get(&c.x).derive_rm_ctx()),
+            RM_INNER_CTX => s.update(c.x, s.get(&c.x).derive_add_ctx(a), |m, _ctx| m.rm(c.y, m.read_ctx().derive_rm_ctx())),
+            RM_OUTER_CTX => s.rm(c.x, s.read_ctx().derive_rm_ctx()),
             _ => unreachable!(),
         })
     }
@@ -97,6 +101,8 @@ impl Sys for MapMap {
             RM_MEMBER => format!("update({k}, ctx, |m, c| m.update({i}, c, |set, _| set.rm({m}, set.contains({m}).derive_rm_ctx())))", k = c.x, i = inner, m = member),
             RM_INNER => format!("update({k}, ctx, |m, _| m.rm({i}, m.get({i}).derive_rm_ctx()))", k = c.x, i = c.y),
             RM_OUTER => format!("rm({k}, get({k}).derive_rm_ctx())", k = c.x),
+            RM_INNER_CTX => format!("update({k}, ctx, |m, _| m.rm({i}, m.read_ctx().derive_rm_ctx()))", k = c.x, i = c.y),
+            RM_OUTER_CTX => format!("rm({k}, read_ctx().derive_rm_ctx())", k = c.x),
             _ => "?".into(),
         }
     }
@@ -109,6 +115,8 @@ impl Sys for MapMap {
             ADD => format!("s.update({k}u8, s.get(&{k}).derive_add_ctx({a}), |m, c| m.update({i}u8, c, |set, c| set.add({mm}u8, c)))", k = c.x, a = a, i = inner, mm = member),
             RM_MEMBER => format!("s.update({k}u8, s.get(&{k}).derive_add_ctx({a}), |m, c| m.update({i}u8, c, |set, _c| set.rm({mm}u8, set.contains(&{mm}).derive_rm_ctx())))", k = c.x, a = a, i = inner, mm = member),
             RM_INNER => format!("s.update({k}u8, s.get(&{k}).derive_add_ctx({a}), |m, _c| m.rm({i}u8, m.get(&{i}).derive_rm_ctx()))", k = c.x, a = a, i = c.y),
+            RM_INNER_CTX => format!("s.update({k}u8, s.get(&{k}).derive_add_ctx({a}), |m, _c| m.rm({i}u8, m.read_ctx().derive_rm_ctx()))", k = c.x, a = a, i = c.y),
+            RM_OUTER_CTX => format!("s.rm({k}u8, s.read_ctx().derive_rm_ctx())", k = c.x),
             _ => format!("s.rm({k}u8, s.get(&{k}).derive_rm_ctx())", k = c.x),
         }
     }
